@@ -237,6 +237,20 @@ pub fn entry(name: &str, b: &[u8]) -> String {
         #[cfg(feature = "ark")]
         "deser_affine" => match Aff::deserialize_compressed(b) { Ok(a) => { let e: Element = a.into(); format!("ok {}", h(&e.vartime_compress().0)) }, Err(e) => format!("err {:?}", e) },
         #[cfg(feature = "ark")]
+        "deser_affine_unc" | "deser_element_unc" | "deser_affine_unchecked" | "deser_element_unchecked" => {
+            // the other (Compress, Validate) modes: refusing (panic / Err) is fine, an element that is not a valid decaf element is not
+            let bb = b.to_vec(); let nm = name.to_string();
+            let r = std::panic::catch_unwind(move || -> Result<V, String> {
+                match nm.as_str() {
+                    "deser_affine_unc" => Aff::deserialize_uncompressed(&bb[..]).map(V::A).map_err(|e| format!("{:?}", e)),
+                    "deser_element_unc" => Element::deserialize_uncompressed(&bb[..]).map(V::E).map_err(|e| format!("{:?}", e)),
+                    "deser_affine_unchecked" => Aff::deserialize_compressed_unchecked(&bb[..]).map(V::A).map_err(|e| format!("{:?}", e)),
+                    _ => Element::deserialize_compressed_unchecked(&bb[..]).map(V::E).map_err(|e| format!("{:?}", e)),
+                }
+            });
+            match r { Err(_) => "refused".into(), Ok(Err(e)) => format!("err {}", e), Ok(Ok(v)) => format!("ok valid={}", is_valid(&v)) }
+        }
+        #[cfg(feature = "ark")]
         "deser_encoding" => match Encoding::deserialize_compressed(b) { Ok(e) => format!("ok {}", h(&e.0)), Err(e) => format!("err {:?}", e) },
         #[cfg(feature = "ark")]
         "from_random_bytes" => match Aff::from_random_bytes(b) { Some(a) => { let e: Element = a.into(); let back = e.vartime_compress().vartime_decompress();
@@ -266,6 +280,12 @@ pub fn named(name: &str, st: &mut Vec<V>) {
         "debug" => { let a = pop_e(st); st.push(V::S(format!("{:?}|{}", a, a))) }
         #[cfg(feature = "ark")]
         "adebug" => { let a = pop_a(st); st.push(V::S(format!("{:?}|{}", a, a))) }
+        #[cfg(feature = "ark")]
+        "sum_filter" => { let n = st.len(); let v: Vec<Element> = (0..n).map(|_| pop_e(st)).collect(); st.push(V::E(v.into_iter().rev().filter(|_| true).sum())) }
+        #[cfg(feature = "ark")]
+        "sum_ref_filter" => { let n = st.len(); let v: Vec<Element> = (0..n).map(|_| pop_e(st)).collect(); st.push(V::E(v.iter().rev().filter(|_| true).sum())) }
+        #[cfg(feature = "ark")]
+        "sum_takewhile" => { let n = st.len(); let v: Vec<Element> = (0..n).map(|_| pop_e(st)).collect(); st.push(V::E(v.into_iter().rev().take_while(|_| true).sum())) }
         #[cfg(feature = "ark")]
         "sum" => { let n = st.len(); let v: Vec<Element> = (0..n).map(|_| pop_e(st)).collect(); st.push(V::E(v.into_iter().rev().sum())) }
         #[cfg(feature = "ark")]
